@@ -579,6 +579,29 @@ func degenerate(t *testing.T) {
 			reqs = append(reqs, Req{Wire: marshal(&pb.QueryRequest{Queries: []*pb.Query{q}}), Kind: "empty-operand-list@depth1"})
 		}
 	}
+	// group-by lists with columns repeated in every pattern up to length 5
+	// over three columns (each list is a request of its own: a server that
+	// dies is restarted by the next case only)
+	var lists [][]string
+	var rec func(prefix []string)
+	rec = func(prefix []string) {
+		if len(prefix) >= 2 {
+			lists = append(lists, append([]string(nil), prefix...))
+		}
+		if len(prefix) == 5 {
+			return
+		}
+		for _, c := range []string{"a", "b", "c"} {
+			rec(append(prefix, c))
+		}
+	}
+	rec(nil)
+	var gbReqs []Req
+	for _, gb := range lists {
+		q := fix.PBQuery(model.Not(model.Eq("a", "none")), gb, 0)
+		gbReqs = append(gbReqs, Req{Wire: marshal(&pb.QueryRequest{Queries: []*pb.Query{q}}), Kind: "repeated-group-by-columns"})
+	}
+	run(t, &Case{Data: gen.DataSpec{Explicit: []model.Row{{"a": "1", "b": "x", "c": "p"}, {"a": "2", "b": "x", "c": "q"}, {"a": "1", "b": "y"}}}, Reqs: gbReqs}, "request")
 	for _, rows := range [][]model.Row{{}, {{}, {}, {}}, {{"a": "1"}}} {
 		for _, args := range [][]string{nil, {"-p"}} {
 			run(t, &Case{Data: gen.DataSpec{Explicit: rows}, ServerArgs: args, Reqs: reqs}, "request")
